@@ -209,6 +209,10 @@ def tasks(tier, seed, selftest=False):
     # two independent switches: partial diagrams that contain every node of the full one but not every edge
     for sk in (("succ", "succ"), ("succ", "succ", "succ"), ("bfs", "succ"), ("succ", "dfs")):
         S.append(dict(family="P:SW2+SW2", skeleton=sk, timebox=15 if q else 600))
+    # diagrams with a shortcut edge (a node with parents at different depths), in both answer orders
+    for sk in (("succ", "succ"), ("succ", "dfs"), ("dfs", "bfs"), ("bfs", "succ"), ("succ", "succ", "succ")):
+        for order in ("canonical", "reversed"):
+            S.append(dict(family="SKIP3", skeleton=sk, timebox=6 if q else 300, params={"order": order}))
     pairs = list(itertools.product(OPS, repeat=2))
     for sk in pairs:
         S.append(dict(family="U2", skeleton=sk, timebox=5 if q else 900))
